@@ -83,6 +83,7 @@ def semOf : Sexp → Option Semantics
   | .atom "current" => some current
   | .atom "actual" => some actual
   | .atom "fixed" => some fixed
+  | .atom "fixedGen" => some fixedGen
   | _ => none
 
 /-! printing -/
@@ -152,8 +153,12 @@ def handle (op : String) (args : List Sexp) : Option String :=
     let sem ← semOf sem
     let evs ← evs.mapM evOf
     some ("ok " ++ " ".intercalate ((runOut sem w0 evs).map Sexp.toStr))
+  | "gen.flags", [sem] => do
+    let s ← semOf sem
+    let m : Mode → String := fun m => match m with | .append => "append" | .truncate => "truncate" | .ifAbsent => "ifAbsent"
+    some s!"genMode={m s.genMode} resetFieldDefs={s.resetFieldDefs} resetContexts={s.resetContexts} resetCounter={s.resetCounter} pyprojMode={m s.pyprojMode} toxMode={m s.toxMode}"
   | "gen.current", [] =>
-    some (if current = actual then "actual" else if current = fixed then "fixed" else "other")
+    some (if current = actual then "actual" else if current = fixed then "fixed" else if current = fixedGen then "fixedGen" else "other")
   | _, _ => none
 
 end NasdaqModel.Driver.GenHistoryD
